@@ -412,7 +412,7 @@ M('schur-exceptional-shift-uncounted', 'C13', 'loop-makes-progress',
 M('compressV-nnz-off-by-one', 'C13', 'factorization-index-within-extent',
   [('LinAlg/Arnoldi.h', "const Index nnz = m_m - m_k + i + 1;", "const Index nnz = m_m - m_k + i + 2;")], 'reads one column past V for the last i')
 M('factorize-H-subdiag-from-zero', 'C13', 'factorization-index-within-extent',
-  [('HermEigsBase.h', "        m_fac.factorize_from(1, m_ncv, m_nmatop);\n        retrieve_ritzpair(selection);\n        // Restarting", "        m_fac.factorize_from(0, m_ncv, m_nmatop);\n        retrieve_ritzpair(selection);\n        // Restarting")],
+  [('HermEigsBase.h', "        m_fac.factorize_from((std::max)(Index(1), m_fac.subspace_dim()), m_ncv, m_nmatop);", "        m_fac.factorize_from((std::max)(Index(0), m_fac.subspace_dim() - 1), m_ncv, m_nmatop);")],
   'H(i, i-1) with i = 0')
 M('lanczos-vf-too-short', 'C13', 'factorization-index-within-extent',
   [('LinAlg/Lanczos.h', "        Vector Vf(to_m);", "        Vector Vf(to_m - 1);")], 'Vf.head(i1) with i1 = to_m in the last step')
@@ -787,3 +787,68 @@ M('ds-block-tail-size-not-recorded', 'C13', 'reflector-size-written-for-every-co
 ''')], 'the size of the last column of a block is left uninitialised')
 M('ds-chase-loop-stops-one-early', 'C13', 'reflector-size-written-for-every-column',
   [(D, 'for (Index i = 1; i < bsize - 2; i++)', 'for (Index i = 1; i < bsize - 3; i++)')], 'column iu - 2 gets no reflector and no size')
+
+# ----------------------------------------------------------------------------- lifetime of the stored matrix reference (F12)
+M('svd-ctor-takes-ref-by-reference', 'C16', 'stored-matrix-reference-outlives-its-argument',
+  [('contrib/PartialSVDSolver.h', """    template <typename Derived>
+    PartialSVDSolver(const Eigen::EigenBase<Derived>& mat, Index ncomp, Index ncv) :
+        m_mat(mat.derived()), m_m(m_mat.rows()), m_n(m_mat.cols()), m_evecs(0, 0)""", """    PartialSVDSolver(ConstGenericMatrix& mat, Index ncomp, Index ncv) :
+        m_mat(mat), m_m(m_mat.rows()), m_n(m_mat.cols()), m_evecs(0, 0)""")],
+  'reverts fix F12: the member copies a Ref whose evaluated temporary dies with the constructor call (row-major argument)')
+M('svd-operator-built-from-argument', 'C16', 'stored-matrix-reference-outlives-its-argument',
+  [('contrib/PartialSVDSolver.h', "m_op.reset(new SVDTallMatOp<Scalar, MatrixType>(m_mat));", "m_op.reset(new SVDTallMatOp<Scalar, MatrixType>(mat.derived()));")],
+  'the operator copies a temporary Ref made from the argument: dangles for tall row-major input')
+N('svd-ctor-takes-matrixbase-like-the-wrappers', 'C16', [('contrib/PartialSVDSolver.h', "m_mat(mat.derived()), m_m(m_mat.rows())", "m_mat(mat.derived()), m_m(mat.rows())")],
+  'sizes read from the argument instead of the member: same values')
+
+# ----------------------------------------------------------------------------- allocation before validation (round-9 seed C12i)
+M('herm-ctor-preallocates-ritz-values-before-guards', 'C12', 'no-allocation-sized-by-unvalidated-argument',
+  [('HermEigsBase.h', """        m_info(CompInfo::NotComputed)
+    {
+        if (nev < 1 || nev > m_n - 1)
+            throw std::invalid_argument("nev must satisfy 1 <= nev <= n - 1, n is the size of matrix");
+
+        if (ncv <= nev || ncv > m_n)
+            throw std::invalid_argument("ncv must satisfy nev < ncv <= n, n is the size of matrix");
+    }
+
+    // If op is an rvalue""", """        m_info(CompInfo::NotComputed)
+    {
+        m_ritz_val.resize(m_ncv);
+        if (nev < 1 || nev > m_n - 1)
+            throw std::invalid_argument("nev must satisfy 1 <= nev <= n - 1, n is the size of matrix");
+
+        if (ncv <= nev || ncv > m_n)
+            throw std::invalid_argument("ncv must satisfy nev < ncv <= n, n is the size of matrix");
+    }
+
+    // If op is an rvalue""")], 'negative ncv reaches resize() before the range guard: bad_alloc instead of invalid_argument')
+M('gen-ctor-ritz-estimates-in-initialiser-list', 'C12', 'no-allocation-sized-by-unvalidated-argument',
+  [('GenEigsBase.h', "        m_info(CompInfo::NotComputed)\n    {\n        if (nev < 1 || nev > m_n - 2)", "        m_ritz_est(m_ncv),\n        m_info(CompInfo::NotComputed)\n    {\n        if (nev < 1 || nev > m_n - 2)", 'all')],
+  'sized member construction in the initialiser list')
+N('herm-ctor-preallocates-ritz-values-after-guards', 'C12',
+  [('HermEigsBase.h', """            throw std::invalid_argument("ncv must satisfy nev < ncv <= n, n is the size of matrix");
+    }
+
+    // If op is an rvalue""", """            throw std::invalid_argument("ncv must satisfy nev < ncv <= n, n is the size of matrix");
+        m_ritz_val.resize(m_ncv);
+    }
+
+    // If op is an rvalue""")], 'allocation after both guards: only validated sizes reach it')
+N('herm-compute-skips-complete-factorization', 'C01,C03,C04,C05,C06,C13',
+  [('HermEigsBase.h', "        m_fac.factorize_from((std::max)(Index(1), m_fac.subspace_dim()), m_ncv, m_nmatop);\n        retrieve_ritzpair(selection);",
+    "        const Index from_k = (std::max)(Index(1), m_fac.subspace_dim());\n        if (from_k < m_ncv)\n            m_fac.factorize_from(from_k, m_ncv, m_nmatop);\n        retrieve_ritzpair(selection);")],
+  'factorize_from(ncv, ncv) is a no-op: skipping it for a complete factorization changes nothing; the Ritz pairs are still retrieved')
+M('herm-compute-skips-retrieve-for-complete-factorization', 'C03,C04,C01', 'ritz-data-retrieved-by-this-call',
+  [('HermEigsBase.h', "        m_fac.factorize_from((std::max)(Index(1), m_fac.subspace_dim()), m_ncv, m_nmatop);\n        retrieve_ritzpair(selection);",
+    "        const Index from_k = (std::max)(Index(1), m_fac.subspace_dim());\n        if (from_k < m_ncv)\n        {\n            m_fac.factorize_from(from_k, m_ncv, m_nmatop);\n            retrieve_ritzpair(selection);\n        }")],
+  'round-9 seed C03i as an edit: second compute() reads the back-transformed, re-ordered values of the first')
+
+# ----------------------------------------------------------------------------- LOBPCG status / verdict (F13, round-9 seed C17i)
+M('lobpcg-status-not-reset-at-entry', 'C17', 'success-only-after-fresh-residual-test',
+  [('contrib/LOBPCGSolver.h', "        m_info = Eigen::NoConvergence;\r\n\r\n        Scalar tolerance_L2", "        Scalar tolerance_L2")],
+  'reverts fix F13: a failed call keeps the Success of an earlier call')
+N('lobpcg-status-reset-then-else-branch', 'C17',
+  [('contrib/LOBPCGSolver.h', "        if (BlockSize == 0)\r\n        {\r\n            m_info = Eigen::Success;\r\n        }\r\n    }  // compute",
+    "        if (BlockSize == 0)\r\n        {\r\n            m_info = Eigen::Success;\r\n        }\r\n        else if (m_info == Eigen::Success)\r\n        {\r\n            m_info = Eigen::NoConvergence;\r\n        }\r\n    }  // compute")],
+  'redundant second reset: same status on every path')
